@@ -245,7 +245,7 @@ fn extension_additions(input: Input<'_>) -> ParserResult<'_, ()> {
                             preceded(
                                 range_seperator,
                                 preceded(
-                                    opt(char(LESS_THAN)),
+                                    skip_ws_and_comments(opt(char(LESS_THAN))),
                                     skip_ws_and_comments(alt((
                                         value(None, tag(MAX)),
                                         map(asn1_value, Some),
@@ -311,7 +311,7 @@ fn value_range(input: Input<'_>) -> ParserResult<'_, SubtypeElements> {
                 preceded(
                     range_seperator,
                     preceded(
-                        opt(char(LESS_THAN)),
+                        skip_ws_and_comments(opt(char(LESS_THAN))),
                         skip_ws_and_comments(alt((value(None, tag(MAX)), map(asn1_value, Some)))),
                     ),
                 ),
